@@ -971,7 +971,9 @@ class Replica(object):
                         self.add_violation("C18", job, "W3-default", "%s width %s: %s default %r (wrapped) vs %r" % (kind, ll, n, x.get("default"), y.get("default")),
                                            {"kind": kind, "dchange": "%s->%s" % (type(x.get("default")).__name__, type(y.get("default")).__name__), "entry": "return" if n == "<return>" else None,
                                             # the two values are strings that differ in their white space only (a tab, a run of blanks inside the value)
-                                            "ws_only": True if isinstance(x.get("default"), str) and isinstance(y.get("default"), str) and x["default"].split() == y["default"].split() else None})
+                                            "ws_only": True if isinstance(x.get("default"), str) and isinstance(y.get("default"), str) and x["default"].split() == y["default"].split() else None,
+                                            # a string value with a backslash or a control character in it (an escape sequence that was or was not interpreted)
+                                            "escapes": True if any(isinstance(d, str) and ("\\" in d or any(ord(c) < 32 for c in d)) for d in (x.get("default"), y.get("default"))) else None})
                     elif _norm_prose(x.get("doc")) != _norm_prose(y.get("doc")):
                         self.add_violation("C18", job, "W4-prose", "%s width %s: %s prose %r (wrapped) vs %r" % (kind, ll, n, x.get("doc"), y.get("doc")), {"kind": kind, "entry": "return" if n == "<return>" else None})
                 if _norm_prose(a.get("doc")) != _norm_prose(b.get("doc")):
